@@ -80,8 +80,8 @@ func (d *deduplicator) notifyDKGResultSubmitted(
 ) bool {
 	d.dkgResultHashCache.Sweep()
 
-	cacheKey := newDKGResultSeed.Text(16) +
-		hex.EncodeToString(newDKGResultHash[:]) +
+	cacheKey := newDKGResultSeed.Text(16) + "-" +
+		hex.EncodeToString(newDKGResultHash[:]) + "-" +
 		strconv.Itoa(int(newDKGResultBlock))
 
 	// If the key is not in the cache, that means the result was not handled
